@@ -166,6 +166,19 @@ pub fn check_case(c: &ScriptCase, obs: &mut Obs) -> Verdict {
     if let Err(m) = validate_ops(&ops, 0..old.len(), 0..new.len(), &eq) {
         return Verdict::Fail(format!("{}: script {:?} -> ops {:?}: {}", name, c.script, ops, m));
     }
+    // a script of positive-length calls comes out as ops of positive length
+    for (i, op) in ops.iter().enumerate() {
+        let (_, o, n) = op.as_tag_tuple();
+        let empty = match op {
+            DiffOp::Equal { len, .. } => *len == 0,
+            DiffOp::Delete { .. } => o.is_empty(),
+            DiffOp::Insert { .. } => n.is_empty(),
+            DiffOp::Replace { .. } => o.is_empty() || n.is_empty(),
+        };
+        if empty {
+            return Verdict::Fail(format!("{}: script {:?} -> ops {:?}: op {} covers nothing", name, c.script, ops, i));
+        }
+    }
     let (d1, i1, _) = ops_cost(&ops);
     if (d1, i1) != (d0, i0) {
         return Verdict::Fail(format!(
